@@ -5,14 +5,18 @@ EXTENDS Integers
 
 VARIABLES
     \* @type: Int;
+    w,
+    \* @type: Int;
+    h,
+    \* @type: Int;
     size,
     \* @type: Int;
     parts,
     \* @type: Int;
     i
 
-Init == size \in 1 .. 4294967295 /\ parts \in 1 .. 4294967295 /\ parts <= size /\ i \in 1 .. 4294967295 /\ i <= parts
-Next == UNCHANGED <<size, parts, i>>
+Init == w \in 1 .. 4294967295 /\ h \in 1 .. 4294967295 /\ size \in 1 .. 4294967295 /\ parts \in 1 .. 4294967295 /\ parts <= size /\ i \in 1 .. 4294967295 /\ i <= parts
+Next == UNCHANGED <<w, h, size, parts, i>>
 
 step == size \div parts
 rem == size % parts
@@ -26,4 +30,14 @@ BandsTile == /\ Off(1) = 0
              /\ Len(i) - step \in {0, 1}           \* sizes differ by at most one
              /\ Off(parts + 1) = size              \* exactly the band
              /\ Off(i) + Len(i) <= size
+
+(* C08: the band count  extent / max(1, max(2^14 / area, extent / 256)),  area = extent * max(w, h).  *)
+Max(a, b) == IF a > b THEN a ELSE b
+Area == h * Max(h, w)
+MinExt == Max(16384 \div Area, h \div 256)
+MaxPartsH == h \div Max(MinExt, 1)
+MaxPartsOK == Area > 0 /\ MaxPartsH >= 0 /\ MaxPartsH <= h
+\* what u32 arithmetic computes: the area wraps modulo 2^32 and may become 0 (division by zero)
+AreaU32 == (h * Max(h, w)) % 4294967296
+MaxPartsU32 == AreaU32 > 0
 =============================================================================
